@@ -14,7 +14,7 @@ LEVEL_TEXT = ('Lean 4 theorems about an executable model of Spectrum._ufunc/_int
               'the smaller minimum and ends at the larger maximum; add/multiply (any commutative op) are commutative incl. the '
               'left/right sampling swap; scalar/vector operands act element-wise on the unchanged grid; the right operand is used '
               'in the left operand\'s unit. Model tied to the code by differential testing at ℚ.')
-LEVEL_NOTE = ('the scalar grid arithmetic of _interp_common (range, guard, number of intervals, linspace arguments), what each _sampling option selects and the wiring of Spectrum._ufunc (element-wise operand kinds, conversion of the right operand on a copy, no write to self, result units from the left operand) are regenerated as Gen/InterpGrid.lean; the model consumes them (bridge lemmas gridNum_eq, commonGrid_eq, samplingOf_eq) and operands_unchanged_structural is about the wiring. unit invariance is proved for unitless spectra (`unit_invariance_unitless`: re-expressing both operands and a numeric sampling in any unit rescales the result\'s grid and keeps its values, every operator; `ufunc_scale` is the k>0 core) and the result is a valid spectrum (`ufunc_result_valid`); for density spectra (scope in ASSUMPTIONS) only the '
+LEVEL_NOTE = ('the scalar grid arithmetic of _interp_common (range, guard, number of intervals, linspace arguments), what each _sampling option selects and the wiring of Spectrum._ufunc (element-wise operand kinds, conversion of the right operand on a copy, no write to self, result units from the left operand) are regenerated as Gen/InterpGrid.lean; the model consumes them (bridge lemmas gridNum_eq, commonGrid_eq, samplingOf_eq) and operands_unchanged_structural is about the wiring. unit invariance is proved for unitless spectra (`unit_invariance_unitless`: re-expressing both operands and a numeric sampling in any unit rescales the result\'s grid and keeps its values, every operator; `ufunc_scale` is the k>0 core) and, end to end from valid operands (`ufunc_of_valid`: WF, valid grids, ≥ 2 samples, a named sampling option ⇒ the operation succeeds on a valid grid from the smaller minimum to the larger maximum with one value per wavelength and pointwise values; all side conditions derived), the result is a spectrum; the guard band is `operand_guard_band`; commutativity at driver level is `ufuncU_comm_same_units` (same units) and `ufuncU_comm_across_units` (unitless operands in different units); for density spectra (scope in ASSUMPTIONS) only the '
               'hand-over step is proved (`unit_handover_partial`) and the clause, like "operands unchanged" and "result is a new object", '
               'is evaluated on the implementation by the oracle in every run (all 4 units, snapshots). Trusted: interp1d(linear), '
               'np.linspace, np.clip.')
@@ -23,17 +23,19 @@ GEN = ['Units', 'InterpGrid', 'SpectrumOps']
 OPS = ['C13']
 RULE = ('pairs of dyadic spectra (2..8 samples each; identical / nested / overlapping / touching / disjoint ranges; uniform and '
         'non-uniform grids), operators add/subtract/multiply/divide, sampling min/left/right/float, fill 0/1.5/2, all 16 wavelength-unit '
-        'pairs, unitless and density values; scalar (int/float, incl. power and reflected multiply) and vector operands; reflected forms of all five operators with ndarray / int64 ndarray / list / np.float64 / float / int / 0-d array on the left (result must be one element-wise Spectrum or a TypeError, left*s = s*left); (equal length, '
+        'pairs, unitless and density values; scalar (int/float and NumPy scalars np.int64/int32/float32/bool_/float64/uint8 on the right, incl. power and reflected multiply) and vector operands; reflected forms of all five operators with ndarray / int64 ndarray / list / np.float64 / float / int / 0-d array on the left (result must be one element-wise Spectrum or a TypeError, left*s = s*left); (equal length, '
         'length 1, wrong length). distinct = (kind, op, sampling, units, sizes, first data); non-trivial = ranges differ or units differ')
 TRUSTED = ['scipy.interpolate.interp1d(kind="linear") is the piecewise-linear interpolant; np.linspace(a,b,n)[i] = a + i(b-a)/(n-1); np.clip',
            'NumPy ufuncs add/subtract/multiply/true_divide/power act element-wise']
-UNPROVEN = ['unit invariance for DENSITY spectra (fill 0; add/subtract/multiply): oracle only — for unitless spectra it is proved (unit_invariance_unitless, via ufunc_scale)',
+UNPROVEN = ['commutativity across units for DENSITY spectra (unitless: ufuncU_comm_across_units, same units: ufuncU_comm_same_units): oracle only',
+            'unit invariance for DENSITY spectra (fill 0; add/subtract/multiply): oracle only — for unitless spectra it is proved (unit_invariance_unitless, via ufunc_scale)',
             'operands unchanged / result is a new object: snapshots in the correspondence (no heap model)',
             'quadratic/cubic interpolation methods (spline kernels are not modelled); power between two spectra (irrational values)',
             ]
-ASSUMPTIONS = ['unit invariance is claimed — and checked by the oracle in all 4 units — for unitless spectra with any fill value and for density spectra with fill 0 (add/subtract/multiply): a numeric fill value is a number in the left operand\'s value unit per ITS wavelength unit, so for densities a fixed non-zero fill is not unit-invariant by construction (e.g. 3.5 in nm vs 2.0015 for the same operands in um); divide needs a non-zero fill and is therefore checked for unitless spectra only',
+ASSUMPTIONS = ['sampling <= 0 and one-sample operands are not generated (the model totalises them)',
+               'unit invariance is claimed — and checked by the oracle in all 4 units — for unitless spectra with any fill value and for density spectra with fill 0 (add/subtract/multiply): a numeric fill value is a number in the left operand\'s value unit per ITS wavelength unit, so for densities a fixed non-zero fill is not unit-invariant by construction (e.g. 3.5 in nm vs 2.0015 for the same operands in um); divide needs a non-zero fill and is therefore checked for unitless spectra only',
                'operands with different value units (photlam + flam): the code combines the raw numbers and labels the result with the left operand\'s unit (so a+b and b+a carry different labels); generated (tag value-units:mixed), model and oracle follow the code; reported as an observation',
-               'quadratic/cubic interpolation (tag method:…): oracle only, under the method-independent laws (grid, commutativity, unit invariance, operands unchanged); Blackbody operands and grids of more than 6000 points are oracle-only too',
+               'quadratic/cubic interpolation (tag method:…): oracle only — the method-independent laws (grid, commutativity, unit invariance, operands unchanged) and the values against an independent scipy interp1d of the same kind on the clipped grid; Blackbody operands and grids of more than 6000 points are oracle-only too',
                'the documented two-element (below, above) fill_value raises ValueError in spectrum-spectrum arithmetic on the current code (fill_value * np.ones(n)); probed and counted (tag fill-pair:…), reported, not modelled',
                'for scalar/vector operands the result shares its wavelength array with the operand ((s*2.0).wave is s.wave): counted (tag result-grid-aliases-operand); the result is a new Spectrum object and no lentil call mutates the array in place, so it is reported as an observation, not as a violation of "the result is a new spectrum"',
                'a numeric sampling is below 1e9 x the union span (beyond that the 1e-9·Δ guard of _interp_common collapses the grid to one point; model and code agree there)',
@@ -47,6 +49,15 @@ def _extremes(rng, k):
     """inputs a small random sample never reaches: common grids of > 2^16 samples, analytic (Blackbody) operands in another unit,
     metre-valued operands with nanometre spacing"""
     out = []
+    # metre-valued operands (numbers ~5e-7) with the same number of samples on grids offset by a few nanometres: an absolute
+    # tolerance of 1e-8 in the operands' unit (np.allclose/np.isclose defaults) is 10 nm here
+    for i in range(max(2, k // 6)):
+        n1 = int(rng.integers(3, 8))
+        w1 = inc_grid(rng, n1, start=dyadic(rng, 400, 600, 2), bits=2, maxstep=12.0, uniform=bool(i % 2))
+        off = [0.25, 1.0, 3.5, 7.75][int(rng.integers(0, 4))]
+        out.append({'kind': 'pair', 'form': 'method', 'fn': OPSN[int(rng.integers(0, 3))], 'w1': w1, 'v1': [dyadic(rng, 1, 16, 3) for _ in w1], 'w2': [x + off for x in w1],
+                    'v2': [dyadic(rng, 1, 16, 3) for _ in w1], 'u1': 'm', 'u2': ['m', 'm', 'nm', 'um'][int(rng.integers(0, 4))], 'vu': None, 'vu2': None, 'method': 'linear',
+                    'sampling': 'min', 'fill': 0.0, 'fk': 'float', 'rel': 'offset-metres', 'dt1': 'float', 'dt2': 'float'})
     for i in range(k):
         t = i % 3
         if t == 0:
@@ -130,6 +141,10 @@ def generate(rng, tier):
             fn = (OPSN + ['power', 'rmul'])[int(rng.integers(0, 6))]
             c = float(int(rng.integers(0, 4))) if fn == 'power' else dyadic(rng, 0.125 if fn == 'divide' else -4, 8, 3)
             dt = ['float', 'float', 'int'][int(rng.integers(0, 3))]
+            if rng.integers(0, 3) == 0 and fn != 'rmul':
+                out.append({'kind': 'scalar', 'fn': fn, 'w1': w, 'v1': [dyadic(rng, 0.125, 8, 3) for _ in w], 'c': float(int(rng.integers(1, 4))), 'as_int': False,
+                            'dt1': 'float', 'np_scalar': ['int64', 'int32', 'float32', 'bool_', 'float64', 'uint8'][int(rng.integers(0, 6))]})
+                continue
             out.append({'kind': 'scalar', 'fn': fn, 'w1': w, 'v1': [dyadic(rng, 0, 8, 3) if dt == 'float' else float(int(rng.integers(0, 9))) for _ in w], 'c': c,
                         'as_int': bool(rng.integers(0, 2)) and float(c).is_integer(), 'dt1': dt})
         else:
@@ -300,6 +315,14 @@ def _single(c, R, s1):
         b1 = _snap(s1)
         if k == 'scalar':
             cc = int(c['c']) if c['as_int'] else c['c']
+            if c.get('np_scalar'):
+                cc = getattr(np, c['np_scalar'])(1 if c['np_scalar'] == 'bool_' else c['c'])
+                NOTES[id(c)] = ['scalar:numpy-type:' + c['np_scalar']]
+                try:
+                    r = _call(s1, c['fn'], cc)
+                except TypeError as e:
+                    return {'exc': 'TypeError', 'msg': str(e)[:80], 'unchanged': _snap(s1) == b1}
+                return {'res': _out(r), 'new': r is not s1, 'unchanged': _snap(s1) == b1}
             r = _call(s1, c['fn'], cc, form='operator' if c['fn'] != 'rmul' and int(c['c'] * 8) % 2 == 0 else 'method')
             if np.shares_memory(r.wave, s1.wave): NOTES[id(c)] = ['result-grid-aliases-operand']
             return {'res': _out(r), 'new': r is not s1, 'unchanged': _snap(s1) == b1}
@@ -326,7 +349,8 @@ def requests(c, io):
         return [{'op': 'c13.ufunc', 'fn': c['fn'], 's1': sp(io['s1']), 's2': sp(io['s2']), 'sampling': sm, 'fill': q(c['fill'])}]
     s1 = {'wave': qs(c['w1']), 'value': qs(c['v1'])}
     fn = 'multiply' if c['fn'] == 'rmul' else c['fn']
-    if k == 'scalar': return [{'op': 'c13.scalar', 'fn': fn, 's1': s1, 'c': q(c['c'])}]
+    if k == 'scalar':
+        return [{'op': 'c13.scalar', 'fn': fn, 's1': s1, 'c': q(1.0 if c.get('np_scalar') == 'bool_' else c['c'])}]
     return [{'op': 'c13.vector', 'fn': fn, 's1': s1, 'v': qs(c['v'])}]
 
 def _fl(ps): return [float(unq(p)) for p in ps]
@@ -407,10 +431,10 @@ def oracle(c, io):
     if k != 'pair':
         if 'exc' in io:
             if k == 'vector' and len(c['v']) not in (len(c['w1']), 1): return None if io['unchanged'] else 'refused operation changed the operand'
-            return f"{c['fn']} with a {k} raised {io['exc']}"
+            return f"{c['fn']} with a {k}" + (f" (np.{c['np_scalar']}({c['c']}) on the right)" if c.get('np_scalar') else '') + f" raised {io['exc']}: {io.get('msg', '')}"
         r = io['res']
         if r['wave'] != c['w1']: return 'scalar/vector operand changed the wavelength grid'
-        other = c['c'] if k == 'scalar' else np.array(c['v'])
+        other = (1.0 if c.get('np_scalar') == 'bool_' else c['c']) if k == 'scalar' else np.array(c['v'])
         want = NP[c['fn']](np.array(c['v1']), other)
         if not all_close(r['value'], list(np.broadcast_to(want, (len(c['w1']),))), 1e-14): return f"{c['fn']} with a {k} is not element-wise: {r['value']} vs {list(want)}"
         if not io['new']: return 'result is not a new spectrum'
@@ -453,7 +477,16 @@ def oracle(c, io):
     for e in (w1[0], w1[-1], w2[0], w2[-1]):
         near_edge |= (np.abs(g - e) < 2 * tol) & (np.abs(g - e) > 0)
     got = np.array(r['value'])
-    if c.get('method', 'linear') != 'linear': near_edge[:] = True      # splines: the pointwise-linear law does not apply; all other laws below do
+    if c.get('method', 'linear') != 'linear':
+        # splines: recompute each operand with an independent scipy interp1d of the requested kind on the clipped grid
+        import scipy.interpolate
+        def Sk(w, v, inside):
+            f = scipy.interpolate.interp1d(w, v, kind=c['method'], bounds_error=False, fill_value=c['fill'])
+            return np.where(inside, f(np.clip(g, w[0], w[-1])), c['fill'])
+        a = Sk(w1, np.array(c['v1'], dtype=float), in1); b = Sk(w2, np.array(c['v2'], dtype=float), in2)
+        if c['vu'] is not None: a = np.where(in1, a * kden, a); b = np.where(in2, b * kden, b)
+        with np.errstate(all='ignore'):
+            want = NP[c['fn']](a, b)
     bad = ~near_edge & ~((got == want) | (np.abs(got - want) <= 1e-9 * np.maximum(np.abs(got), np.abs(want)) + atol))
     if bad.any():
         i = int(np.argmax(bad))
